@@ -136,19 +136,130 @@ func encoders() []enc {
 			return b.Bytes()
 		}})
 	}
-	for _, lv := range []zstd.EncoderLevel{zstd.SpeedFastest, zstd.SpeedDefault, zstd.SpeedBetterCompression} {
+	for _, lv := range []zstd.EncoderLevel{zstd.SpeedFastest, zstd.SpeedDefault, zstd.SpeedBetterCompression, zstd.SpeedBestCompression} {
 		lv := lv
+		var w *zstd.Encoder // created on first use and reused (Reset): building a "best" encoder is expensive
+		get := func() *zstd.Encoder {
+			if w == nil {
+				w, _ = zstd.NewWriter(nil, zstd.WithEncoderLevel(lv), zstd.WithEncoderConcurrency(1))
+			}
+			return w
+		}
+		// streaming: the encoder does not know the size in advance and announces its full window
 		es = append(es, enc{3, "zstd-" + lv.String(), func(msg []byte, cuts []int) []byte {
 			var b bytes.Buffer // one frame per piece: a multi-frame stream
 			for _, p := range pieces(msg, cuts) {
-				w, _ := zstd.NewWriter(&b, zstd.WithEncoderLevel(lv), zstd.WithEncoderConcurrency(1))
-				w.Write(p)
-				w.Close()
+				e := get()
+				e.Reset(&b)
+				e.Write(p)
+				e.Close()
 			}
 			return b.Bytes()
 		}})
+		// one shot: content size known, Single_Segment frame(s)
+		es = append(es, enc{3, "zstd-" + lv.String() + "-oneshot", func(msg []byte, cuts []int) []byte {
+			var b []byte
+			for _, p := range pieces(msg, cuts) {
+				b = get().EncodeAll(p, b)
+			}
+			return b
+		}})
 	}
 	return es
+}
+
+func encIndex(es []enc, name string) int {
+	for i, e := range es {
+		if e.name == name {
+			return i
+		}
+	}
+	panic("no encoder " + name)
+}
+
+// ---- zstd frame headers (RFC 8878 3.1.1), parsed independently of the library ----
+const zstdWindowCap = 8 << 20 // RFC 8878 3.1.1.1.2: decoders should support up to 8 MB; the client accepts no more
+
+type zframe struct {
+	window     uint64 // Window_Size from Window_Descriptor, or Frame_Content_Size of a Single_Segment frame
+	start, end int
+	single     bool
+	outLen     int
+}
+
+func zstdFrames(b []byte) (out []zframe, ok bool) {
+	defer func() {
+		if recover() != nil {
+			out, ok = nil, false
+		}
+	}()
+	le := func(p []byte, n int) uint64 {
+		var v uint64
+		for i := 0; i < n; i++ {
+			v |= uint64(p[i]) << (8 * uint(i))
+		}
+		return v
+	}
+	i := 0
+	for i < len(b) {
+		magic := le(b[i:], 4)
+		if magic&0xFFFFFFF0 == 0x184D2A50 { // skippable frame
+			i += 8 + int(le(b[i+4:], 4))
+			continue
+		}
+		if magic != 0xFD2FB528 {
+			return nil, false
+		}
+		f := zframe{start: i}
+		i += 4
+		fhd := b[i]
+		i++
+		fcsFlag, did := int(fhd>>6), int(fhd&3)
+		f.single = fhd&0x20 != 0
+		if !f.single {
+			wd := b[i]
+			i++
+			base := uint64(1) << (10 + uint(wd>>3))
+			f.window = base + base/8*uint64(wd&7)
+		}
+		i += []int{0, 1, 2, 4}[did]
+		fcsSize := []int{0, 2, 4, 8}[fcsFlag]
+		if fcsFlag == 0 && f.single {
+			fcsSize = 1
+		}
+		fcs := le(b[i:], fcsSize)
+		if fcsSize == 2 {
+			fcs += 256
+		}
+		i += fcsSize
+		if f.single {
+			f.window = fcs
+		}
+		for {
+			bh := le(b[i:], 3)
+			i += 3
+			switch (bh >> 1) & 3 {
+			case 1:
+				i++
+			case 3:
+				return nil, false
+			default:
+				i += int(bh >> 3)
+			}
+			if bh&1 == 1 {
+				break
+			}
+		}
+		if fhd&4 != 0 {
+			i += 4
+		}
+		if i > len(b) {
+			return nil, false
+		}
+		f.end = i
+		out = append(out, f)
+	}
+	return out, true
 }
 
 // ---- replay of the decoder with the buffer schedule of decompressCert ----
@@ -160,7 +271,7 @@ type replay struct {
 	eofEarly bool
 }
 
-func openDecoder(alg uint16, comp []byte) (io.Reader, func(), bool) {
+func openDecoder(alg uint16, comp []byte, liftCap bool) (io.Reader, func(), bool) {
 	switch alg {
 	case 2:
 		return brotli.NewReader(bytes.NewReader(comp)), func() {}, true
@@ -171,7 +282,11 @@ func openDecoder(alg uint16, comp []byte) (io.Reader, func(), bool) {
 		}
 		return rc, func() { rc.Close() }, true
 	case 3:
-		rc, err := zstd.NewReader(bytes.NewReader(comp))
+		maxWin := uint64(zstdWindowCap)
+		if liftCap {
+			maxWin = 1 << 30
+		}
+		rc, err := zstd.NewReader(bytes.NewReader(comp), zstd.WithDecoderMaxWindow(maxWin), zstd.WithDecoderLowmem(true), zstd.WithDecoderConcurrency(1))
 		if err != nil {
 			return nil, nil, false
 		}
@@ -180,8 +295,8 @@ func openDecoder(alg uint16, comp []byte) (io.Reader, func(), bool) {
 	return nil, nil, false
 }
 
-func replayDecoder(alg uint16, comp []byte, declared int) replay {
-	r, closeFn, ok := openDecoder(alg, comp)
+func replayDecoder(alg uint16, comp []byte, declared int, liftCap bool) replay {
+	r, closeFn, ok := openDecoder(alg, comp, liftCap)
 	rp := replay{openOK: ok, end: "REof"}
 	if !ok {
 		return rp
@@ -266,10 +381,37 @@ func runScenario(c *vh.Ctx, s scenario) {
 func judge(c *vh.Ctx, s scenario, res tls.VerifC21Result) {
 	msg := build(s.es)
 	full := append(append([]byte{}, msg...), s.extra...)
-	rp := replayDecoder(s.alg, s.comp, s.declared)
+	// zstd frames of an untouched encoder output: declared windows and decompressed lengths
+	var frames []zframe
+	overCap := false
+	if s.alg == 3 && s.valid {
+		fs, ok := zstdFrames(s.comp)
+		if !ok {
+			c.Fail("zstd-frame-parse/"+s.key, "the runner cannot parse the frame headers of an encoder output", vh.Hex(s.comp[:min(len(s.comp), 64)]), nil, nil)
+			return
+		}
+		dec, _ := zstd.NewReader(nil, zstd.WithDecoderMaxWindow(1<<30), zstd.WithDecoderConcurrency(1))
+		for i := range fs {
+			o, err := dec.DecodeAll(s.comp[fs[i].start:fs[i].end], nil)
+			if err != nil {
+				c.Fail("zstd-frame-parse/"+s.key, "a frame cut out by the runner's parser does not decode", fmt.Sprint(fs[i]), fmt.Sprint(err), nil)
+				dec.Close()
+				return
+			}
+			fs[i].outLen = len(o)
+			overCap = overCap || fs[i].window > zstdWindowCap
+		}
+		dec.Close()
+		frames = fs
+	}
+	rp := replayDecoder(s.alg, s.comp, s.declared, frames != nil)
 	accepted := res.Err == nil && res.Msg != nil
 	header := []byte{11, byte(s.declared >> 16), byte(s.declared >> 8), byte(s.declared)}
-	in := map[string]any{"key": s.key, "alg": s.alg, "advertised": s.adv, "declared": s.declared, "decompressed_len": len(full),
+	var fdesc []map[string]any
+	for _, f := range frames {
+		fdesc = append(fdesc, map[string]any{"window": f.window, "single_segment": f.single, "decompressed": f.outLen, "compressed": f.end - f.start})
+	}
+	in := map[string]any{"zstd_frames": fdesc, "key": s.key, "alg": s.alg, "advertised": s.adv, "declared": s.declared, "decompressed_len": len(full),
 		"entries": s.es, "compressed_len": len(s.comp), "delivered_chunks": rp.chunks, "stream_end": rp.end}
 	if len(s.comp) <= 400 {
 		in["compressed"] = vh.Hex(s.comp)
@@ -282,7 +424,12 @@ func judge(c *vh.Ctx, s scenario, res tls.VerifC21Result) {
 	case s.valid && advertised && s.declared == len(full) && len(full) > limit && (accepted || res.Alert != 42):
 		c.Fail("over-limit-accepted/"+s.key, "a certificate message above the handshake size limit is not refused with bad_certificate", in, fmt.Sprint(res.Err, " alert=", res.Alert), "bad_certificate")
 	case s.valid && advertised && s.declared == len(full) && len(s.extra) == 0 && len(full) <= limit && !accepted:
-		c.Fail("valid-stream-rejected/"+s.key, "a valid compressed encoding of the certificate message is not recovered", in, fmt.Sprint(res.Err, " alert=", res.Alert), "the certificate message")
+		if overCap {
+			c.Count("zstd-window-over-cap-refused")
+			c.Fail("valid-stream-rejected/zstd-window-over-8MiB", "a valid zstd stream whose frame header declares Window_Size above 8 MiB is refused (window cap of the zstd reader)", in, fmt.Sprint(res.Err, " alert=", res.Alert), "the certificate message")
+		} else {
+			c.Fail("valid-stream-rejected/"+s.key, "a valid compressed encoding of the certificate message is not recovered", in, fmt.Sprint(res.Err, " alert=", res.Alert), "the certificate message")
+		}
 	case s.valid && advertised && s.declared != len(full) && (accepted || res.Alert != 42):
 		d := "shorter"
 		if len(full) > s.declared {
@@ -324,8 +471,12 @@ func judge(c *vh.Ctx, s scenario, res tls.VerifC21Result) {
 		ob = fmt.Sprintf("(OAlert %d)", res.Alert)
 	}
 	valid := s.declared == len(rp.out) && validCertBody(rp.out)
-	term := fmt.Sprintf("CRun %s %s %d %d %s %s %s %s %s %s", vh.Bool(rp.eofEarly), vh.List(adv), s.alg, s.declared, vh.Bool(rp.openOK), o,
-		vh.List(ch), rp.end, vh.Bool(valid), ob)
+	fl := make([]string, len(frames))
+	for i, f := range frames {
+		fl[i] = fmt.Sprintf("(%d, %d)", f.window, f.outLen)
+	}
+	term := fmt.Sprintf("CRun %s %s %d %d %s %s %s %s %s %s %s", vh.Bool(rp.eofEarly), vh.List(adv), s.alg, s.declared, vh.Bool(rp.openOK), o,
+		vh.List(ch), rp.end, vh.List(fl), vh.Bool(valid), ob)
 	c.Case("run", term, s.key, len(rp.chunks) > 1 || !accepted, in)
 	if len(rp.chunks) > 1 {
 		c.Count("multi-chunk")
@@ -366,7 +517,7 @@ func run(c *vh.Ctx) {
 	{
 		es := []entry{{300, 7, 3}}
 		msg := build(es)
-		z := encs[len(encs)-2] // zstd default
+		z := encs[encIndex(encs, "zstd-default")] // zstd default
 		runScenario(c, scenario{"v0-witness/two-frames-zstd", all, 3, es, nil, len(msg), z.f(msg, []int{100}), true})
 		big := []entry{{40000, 1, 5}}
 		bm := build(big)
@@ -392,17 +543,37 @@ func run(c *vh.Ctx) {
 			es   []entry
 		}{
 			{"zlib-70k", 1, []entry{{70000, 3, 7}}},
-			{"brotli-130k", 6, []entry{{65000, 9, 11}, {65000, 200, 3}}},
-			{"zstd-200k-3frames", len(encs) - 2, []entry{{100000, 1, 1}, {99000, 5, 9}}},
+			{"brotli-90k", 6, []entry{{45000, 9, 11}, {45000, 200, 3}}},
+			{"zstd-150k-3frames", encIndex(encs, "zstd-default"), []entry{{75000, 1, 1}, {74000, 5, 9}}},
 			{"zlib-exactly-limit", 0, []entry{{limit - 9, 77, 13}}},
 		} {
 			lm := build(lg.es)
 			var cuts []int
-			if lg.ei == len(encs)-2 {
-				cuts = []int{50000, 120000}
+			if lg.ei == encIndex(encs, "zstd-default") {
+				cuts = []int{50000, 110000}
 			}
 			runScenario(c, scenario{"large/" + lg.name, all, encs[lg.ei].alg, lg.es, nil, len(lm), encs[lg.ei].f(lm, cuts), true})
 		}
+		// zstd window boundary: every encoder level, streaming (announces the level's full window: 4/8/16/32 MiB) and one
+		// shot (Single_Segment, window = content size); only frames declaring more than 8 MiB may be refused
+		for _, lv := range []string{"fastest", "default", "better", "best"} {
+			for _, mode := range []string{"", "-oneshot"} {
+				// the streaming encoder announces its window only when the input exceeds one 128 KiB block
+				wes, sz := []entry{{132000, 17, 29}}, "132k"
+				if mode != "" {
+					wes, sz = []entry{{20000, 17, 29}}, "20k"
+				}
+				wm := build(wes)
+				e := encs[encIndex(encs, "zstd-"+lv+mode)]
+				runScenario(c, scenario{"zstd-window/" + lv + mode + "/" + sz, all, 3, wes, nil, len(wm), e.f(wm, nil), true})
+			}
+		}
+		w250 := []entry{{125000, 3, 5}, {125000, 99, 7}}
+		m250 := build(w250)
+		runScenario(c, scenario{"zstd-window/better/250k", all, 3, w250, nil, len(m250), encs[encIndex(encs, "zstd-better")].f(m250, nil), true})
+		w40 := []entry{{40000, 8, 9}}
+		m40 := build(w40)
+		runScenario(c, scenario{"zstd-window/best-oneshot/40k-2frames", all, 3, w40, nil, len(m40), encs[encIndex(encs, "zstd-best-oneshot")].f(m40, []int{15000}), true})
 		over := []entry{{limit - 8, 5, 3}} // one byte more than a Certificate message may have
 		om := build(over)
 		runScenario(c, scenario{"over-limit/message-limit+1", all, 1, over, nil, len(om), encs[0].f(om, nil), true})
@@ -568,7 +739,7 @@ func customSpec(algs []tls.CertCompressionAlgo) *tls.ClientHelloSpec {
 func runReconfig(c *vh.Ctx, encs []enc) {
 	r := c.Rng
 	lists := [][]uint16{{2}, {1}, {3}, {2, 1}, {1, 3}, {3, 2, 1}, {}}
-	byAlg := map[uint16]enc{1: encs[1], 2: encs[6], 3: encs[len(encs)-2]}
+	byAlg := map[uint16]enc{1: encs[1], 2: encs[6], 3: encs[encIndex(encs, "zstd-default")]}
 	es := []entry{{200, 11, 5}, {120, 90, 7}}
 	msg := build(es)
 	type setup struct {
